@@ -333,6 +333,7 @@ func (tl *loader) load(keys ...string) {
 
 	lastProgress := time.Now()
 	for i, key := range keys {
+		verifhook.Point("loader.key")
 		// If taking a while to start-up occasionally give a progress message
 		if time.Since(lastProgress) > 5*time.Second {
 			log.Printf("[INFO] still need to load %d shards...", len(keys)-i)
